@@ -1,4 +1,4 @@
-import Tickit.Proof.EvLoop
+import Tickit.Proof.EvLoopWF
 import Tickit.Gen.EvLoop
 /-
   C17 — Timers and deferred callbacks run once, on time, in order, unless cancelled.
@@ -166,6 +166,28 @@ theorem destroy_notifies_list (t : WType) (l : List Nat) (st : St) (hnd : l.Nodu
     (destroyList st t l).log = (l.filterMap (destroyNote st)).reverse ++ st.log :=
   destroyList_log t l st hnd hlive hok
 
+/-- With the repaired timer loop, in every reachable state whose status is ok each of the five watch lists
+    holds distinct, live watches of the list's own type (so the lists are disjoint). -/
+theorem watch_lists_well_formed (cfg : Config) (hc : cfg.timersPop = true) (ops : List Op)
+    (hok : (runOps cfg ops).status = .ok) : WF (runOps cfg ops) := wf_runOps cfg hc ops hok
+
+/-- When the instance is destroyed (and `tickit_destroy` runs to completion) every remaining watch of every
+    kind gets exactly the notification its stored flags ask for, exactly once: after the SIGCHLD watch has been
+    cancelled, the log gains one UNBIND|DESTROY entry per flagged watch — io watches, timers, deferred
+    callbacks, signal watches, process watches, each list in order — and nothing else.  (Which flags are
+    *stored* is `repaired_masks_keep_destroy` / `io_destroy_mask_counterexample`.) -/
+theorem destroy_notifies_all_kinds (cfg : Config) (hc : cfg.timersPop = true) (ops : List Op)
+    (hok : (runOps cfg ops).status = .ok) (hd : (destroy (runOps cfg ops)).status = .ok) :
+    (destroy (runOps cfg ops)).log =
+      ((listOf (cancelSigchld (runOps cfg ops)) .io ++ listOf (cancelSigchld (runOps cfg ops)) .timer ++
+        listOf (cancelSigchld (runOps cfg ops)) .later ++ listOf (cancelSigchld (runOps cfg ops)) .signal ++
+        listOf (cancelSigchld (runOps cfg ops)) .process).filterMap (destroyNote (cancelSigchld (runOps cfg ops)))).reverse
+      ++ (cancelSigchld (runOps cfg ops)).log :=
+  destroy_log_reachable cfg hc ops hok hd
+
+example : (destroy (runOps .repaired [.act (.io 0 100 1 4), .act (.timer 1 5 6), .act (.later 2 0), .act (.signal 3 23 2),
+    .act (.process 4 1000000000 4)])).log.reverse = [.cb 0 6 .none, .cb 1 6 .none, .cb 3 6 .none, .cb 4 6 .none] := by decide +kernel
+
 /-- The stored flags keep DESTROY for every kind of watch when the io mask is the repaired one … -/
 theorem repaired_masks_keep_destroy (f : Nat) :
     (f &&& (BIND_UNBIND ||| BIND_DESTROY)) &&& BIND_DESTROY = f &&& BIND_DESTROY ∧
@@ -230,6 +252,7 @@ def probeSigchldNext : List Op :=
 /-- `on_sigchld` keeps `next` across a callback that cancels it. -/
 theorem sigchld_next_cancelled_counterexample : (runOps .shipped probeSigchldNext).status = .ub .procLoopThis := by
   decide +kernel
+theorem sigchld_next_cancelled_repaired : (runOps .repaired probeSigchldNext).status = .ok := by decide +kernel
 
 /-! ### statements of the property that are not proved (engines.d/C17.json: open_statements) -/
 
@@ -241,12 +264,6 @@ def exactly_once_full : Prop :=
     ∀ a, a < (runOps .repaired ops).heap.length →
       ((runOps .repaired ops).getW a).type = .timer ∨ ((runOps .repaired ops).getW a).type = .later →
       (runOps .repaired ops).live a = true → a ∈ (runOps .repaired ops).timers ∨ a ∈ (runOps .repaired ops).laters
-
-/-- Destruction, end to end: the five lists of a reachable state are distinct live watches, so that
-    `destroy_notifies_list` applies to each of them. -/
-def destroy_full : Prop :=
-  ∀ (cfg : Config) (ops : List Op), (runOps cfg ops).status = .ok →
-    ∀ t : WType, (listOf (runOps cfg ops) t).Nodup ∧ (runOps cfg ops).allLive (listOf (runOps cfg ops) t) = true
 
 /-- No undefined behaviour on valid usage under the repaired source (three use-after-free remain in the
     shipped tree *and* after the proposed patches: see known/C17.json, known/C18.json). -/
